@@ -20,7 +20,7 @@ RULE = (
     "ssl_context {none, create_urllib3_context(), same with check_hostname off, stdlib create_default_context with our CA} x "
     "CA source {ca_certs file, ca_cert_data, none} x issuer {trusted, untrusted} x certificate names {exact, mismatch, wildcard, "
     "IPv4, IPv6, commonName only} x requested host form {lower, UPPER, trailing dot, IPv4, [IPv6], [IPv6%25zone]} x backend "
-    "{ssl, pyOpenSSL} x path {direct, http-proxy CONNECT tunnel}. Every cell is a REAL TLS handshake (trustme certificates) over "
+    "{ssl, pyOpenSSL} x path {direct, http-proxy CONNECT tunnel, https-proxy tunnel = real TLS in TLS with the proxy certificate ok / untrusted / wrong name}. Every cell is a REAL TLS handshake (trustme certificates) over "
     "socket.socketpair() against an in-process server thread that records whether any application byte arrived after the "
     "handshake. Reference decision table (written from the documentation): which of chain / pin / hostname checks the settings "
     "demand and whether the peer passes them. Non-trivial = at least one demanded check fails, or cert_reqs is not REQUIRED."
@@ -42,7 +42,8 @@ CA_SOURCE = ["ca_certs", "ca_cert_data", "none"]
 ISSUER = ["trusted", "untrusted"]
 SAN = ["exact", "mismatch", "wildcard", "ipv4", "ipv6", "cn-only"]
 HOSTFORM = ["lower", "upper", "dot", "ipv4", "ipv6", "ipv6zone"]
-PATHS = ["direct", "tunnel"]
+PATHS = ["direct", "tunnel", "tunnel-tls"]
+PCERT = ["ok", "untrusted", "wrongname"]
 
 HOST = {"lower": "www.example.test", "upper": "WWW.Example.TEST", "dot": "www.example.test.", "ipv4": "10.11.12.13", "ipv6": "[fd00::7]", "ipv6zone": "[fe80::7%25eth0]"}
 NAME_OF_FORM = {"lower": "www.example.test", "upper": "www.example.test", "dot": "www.example.test", "ipv4": "10.11.12.13", "ipv6": "fd00::7", "ipv6zone": "fe80::7"}
@@ -101,15 +102,59 @@ def server_cert(issuer, san, hostform):
     return w["certs"][key]
 
 
-class Peer:
-    """Server side of one connection: (optional CONNECT proxy in clear, then) TLS origin."""
+class _InnerTLS:
+    """Server side of TLS-in-TLS: an SSLObject pumped through the already encrypted outer socket."""
 
-    def __init__(self, sctx, tunnel: bool):
-        self.sctx, self.tunnel = sctx, tunnel
+    def __init__(self, sctx, outer):
+        self.inb, self.outb = ssl.MemoryBIO(), ssl.MemoryBIO()
+        self.obj = sctx.wrap_bio(self.inb, self.outb, server_side=True)
+        self.outer = outer
+
+    def _flush(self):
+        d = self.outb.read()
+        if d:
+            self.outer.sendall(d)
+
+    def _pump(self, fn, *a):
+        while True:
+            try:
+                r = fn(*a)
+                self._flush()
+                return r
+            except ssl.SSLWantReadError:
+                self._flush()
+                data = self.outer.recv(16384)
+                if not data:
+                    self.inb.write_eof()
+                else:
+                    self.inb.write(data)
+
+    def handshake(self):
+        self._pump(self.obj.do_handshake)
+
+    def recv(self, n):
+        try:
+            return self._pump(self.obj.read, n)
+        except (ssl.SSLZeroReturnError, ssl.SSLEOFError):
+            return b""
+
+    def sendall(self, b):
+        self._pump(self.obj.write, b)
+
+    def close(self):
+        pass
+
+
+class Peer:
+    """Server side of one connection: (optional CONNECT proxy, in clear or over TLS, then) TLS origin."""
+
+    def __init__(self, sctx, tunnel: bool, proxy_sctx=None):
+        self.sctx, self.tunnel, self.proxy_sctx = sctx, tunnel, proxy_sctx
         self.client, self.server = socket.socketpair()
         self.app_bytes = b""
         self.connect_line = None
         self.handshake = None
+        self.proxy_handshake = None
         self.error = None
         self.thread = threading.Thread(target=self._run, daemon=True)
         self.thread.start()
@@ -118,17 +163,34 @@ class Peer:
         s = self.server
         try:
             s.settimeout(8)
+            chan = s
+            if self.proxy_sctx is not None:
+                try:
+                    chan = self.proxy_sctx.wrap_socket(s, server_side=True)
+                    self.proxy_handshake = True
+                except (ssl.SSLError, OSError) as e:
+                    self.proxy_handshake = False
+                    self.error = repr(e)
+                    return
             if self.tunnel:
                 buf = b""
                 while b"\r\n\r\n" not in buf:
-                    chunk = s.recv(4096)
+                    try:
+                        chunk = chan.recv(4096)
+                    except (ssl.SSLError, OSError) as e:
+                        self.error = repr(e)
+                        return
                     if not chunk:
                         return
                     buf += chunk
                 self.connect_line = buf.split(b"\r\n")[0]
-                s.sendall(b"HTTP/1.1 200 Connection established\r\n\r\n")
+                chan.sendall(b"HTTP/1.1 200 Connection established\r\n\r\n")
             try:
-                tls = self.sctx.wrap_socket(s, server_side=True)
+                if self.proxy_sctx is not None:
+                    tls = _InnerTLS(self.sctx, chan)
+                    tls.handshake()
+                else:
+                    tls = self.sctx.wrap_socket(s, server_side=True)
                 self.handshake = True
             except (ssl.SSLError, OSError) as e:
                 self.handshake = False
@@ -166,6 +228,18 @@ class Peer:
             raise core.HarnessError("TLS server thread did not finish within 10 s")
 
 
+def proxy_cert(kind):
+    w = world()
+    key = ("proxy", kind)
+    if key not in w["certs"]:
+        authority = w["ca"] if kind != "untrusted" else w["other"]
+        cert = authority.issue_cert("proxy.test" if kind != "wrongname" else "other-proxy.invalid")
+        ctx = ssl.SSLContext(ssl.PROTOCOL_TLS_SERVER)
+        cert.configure_cert(ctx)
+        w["certs"][key] = ctx
+    return w["certs"][key]
+
+
 def reference(case, cn_enabled_by_context):
     """What the settings demand and whether this peer passes. -> dict"""
     _, _, sans, cn = server_cert(case["issuer"], case["san"], case["hostform"])
@@ -176,6 +250,9 @@ def reference(case, cn_enabled_by_context):
     else:
         eff = "NONE" if "none" in cr.lower() else ("OPTIONAL" if "OPTIONAL" in cr else "REQUIRED")
     config_error = ctx_kind in ("urllib3", "stdlib-default") and eff == "NONE" and case["backend"] == "ssl"
+    # urllib3 applies the destination's cert_reqs to the TLS leg towards an https proxy as well; the proxy context used
+    # here has check_hostname on, so cert_reqs=NONE is the same contradictory configuration there
+    config_error = config_error or (case["path"] == "tunnel-tls" and eff == "NONE")
     pin = case["fp"] != "unset"
     chain_demanded = eff != "NONE"
     # which CAs does the client know?
@@ -203,7 +280,9 @@ def _validate(case):
     fields = (("cert_reqs", CERT_REQS), ("ah", ASSERT_HOSTNAME), ("fp", FINGERPRINT), ("sh", SERVER_HOSTNAME), ("ctx", CONTEXTS), ("ca", CA_SOURCE), ("issuer", ISSUER), ("san", SAN), ("hostform", HOSTFORM), ("path", PATHS), ("backend", ["ssl", "pyopenssl"]))
     if case.get("kind") != "tls" or any(case.get(k) not in dom for k, dom in fields):
         raise core.InvalidCase
-    if case["backend"] == "pyopenssl" and case["ctx"] in ("stdlib-default", "urllib3-nocheck"):
+    if case["backend"] == "pyopenssl" and (case["ctx"] in ("stdlib-default", "urllib3-nocheck") or case["path"] == "tunnel-tls"):
+        raise core.InvalidCase
+    if case.get("pcert", "ok") not in PCERT or (case.get("pcert", "ok") != "ok" and case["path"] != "tunnel-tls"):
         raise core.InvalidCase
 
 
@@ -257,11 +336,13 @@ def run_case(case) -> list[Failure]:
     if "ssl_context" in kw:
         cn_enabled = bool(getattr(kw["ssl_context"], "hostname_checks_common_name", False))
     ref = reference(case, cn_enabled)
-    tunnel = case["path"] == "tunnel"
+    tunnel = case["path"] in ("tunnel", "tunnel-tls")
+    pcert = case.get("pcert", "ok")
+    psctx = proxy_cert(pcert) if case["path"] == "tunnel-tls" else None
     peers: list = []
 
     def fake_create_connection(address, *a, **k):
-        p = Peer(sctx, tunnel)
+        p = Peer(sctx, tunnel, psctx)
         peers.append(p)
         return p.client
 
@@ -280,7 +361,12 @@ def run_case(case) -> list[Failure]:
         with warnings.catch_warnings(record=True) as wlist:
             warnings.simplefilter("always")
             try:
-                if tunnel:
+                if case["path"] == "tunnel-tls":
+                    pctx = create_urllib3_context()
+                    pctx.load_verify_locations(cafile=w["ca_file"])
+                    obj = urllib3.ProxyManager("https://proxy.test:3128", retries=False, proxy_ssl_context=pctx, **kw)
+                    url = f"https://{host}:8443/secret-path"
+                elif tunnel:
                     obj = urllib3.ProxyManager("http://proxy.test:3128", retries=False, **kw)
                     url = f"https://{host}:8443/secret-path"
                 else:
@@ -321,9 +407,13 @@ def run_case(case) -> list[Failure]:
 
     def brief():
         return (f"{ {k: v for k, v in case.items() if k != 'kind'} } reference={ref} -> {('status %s' % (result,)) if result else type(exc).__name__ + ': ' + str(exc)[:160]} "
-                f"server saw {len(app)} application bytes, handshakes {[p.handshake for p in peers]}, is_verified={is_verified}, warned={warned}")
+                f"server saw {len(app)} application bytes, handshakes {[(p.proxy_handshake, p.handshake) for p in peers]}, is_verified={is_verified}, warned={warned}")
 
     demanded_fail = []
+    if pcert != "ok":
+        demanded_fail.append("proxy-" + pcert)
+        if any(p.connect_line for p in peers):
+            fails.append(Failure("bytes-sent", {**sig, "failed": "proxy-" + pcert, "what": "connect-line"}, f"CONNECT was sent to a proxy whose certificate is {pcert}: {brief()}"))
     if ref["chain_demanded"] and not ref["chain_ok"]:
         demanded_fail.append("chain")
     if ref["pin"] and not ref["pin_ok"]:
@@ -346,7 +436,7 @@ def run_case(case) -> list[Failure]:
         if exc is None:
             if not app:
                 fails.append(Failure("no-error", {**sig, "failed": "+".join(demanded_fail)}, f"a demanded check fails but no error was raised: {brief()}"))
-        elif not isinstance(reason, ue.SSLError):
+        elif not isinstance(reason, ue.SSLError) and not (pcert != "ok" and isinstance(exc.reason if isinstance(exc, ue.MaxRetryError) else exc, ue.ProxyError)):
             fails.append(Failure("error-type", {**sig, "exc": type(reason).__name__, "failed": "+".join(demanded_fail)}, f"expected SSLError: {brief()}"))
         if client_open:
             fails.append(Failure("socket-open", {**sig, "failed": "+".join(demanded_fail)}, f"the client socket is still open after the failed check: {brief()}"))
@@ -389,7 +479,7 @@ def nontrivial(case):
 
 def classes(case):
     r = reference(case, False)
-    out = ["backend:" + case["backend"], "path:" + case["path"], "cert_reqs:" + r["eff"], "ctx:" + case["ctx"], "san:" + case["san"], "host:" + case["hostform"], "fp:" + case["fp"], "ah:" + case["ah"], "sh:" + case["sh"], "ca:" + case["ca"], "issuer:" + case["issuer"]]
+    out = ["backend:" + case["backend"], "path:" + case["path"], "pcert:" + case.get("pcert", "ok"), "cert_reqs:" + r["eff"], "ctx:" + case["ctx"], "san:" + case["san"], "host:" + case["hostform"], "fp:" + case["fp"], "ah:" + case["ah"], "sh:" + case["sh"], "ca:" + case["ca"], "issuer:" + case["issuer"]]
     if r["config_error"]:
         out.append("config-error")
     return out
@@ -405,22 +495,29 @@ def coherent(c):
         return False
     if c["san"] == "ipv6" and c["hostform"] not in ("ipv6", "ipv6zone", "lower"):
         return False
-    if c["backend"] == "pyopenssl" and c["ctx"] in ("stdlib-default", "urllib3-nocheck"):
+    if c["backend"] == "pyopenssl" and (c["ctx"] in ("stdlib-default", "urllib3-nocheck") or c["path"] == "tunnel-tls"):
+        return False
+    if c.get("pcert", "ok") != "ok" and c["path"] != "tunnel-tls":
         return False
     return True
 
 
 def lattice(backend):
     for cr, ah, fp, sh, ctx, ca, issuer, san, hf, path in itertools.product(CERT_REQS, ASSERT_HOSTNAME, FINGERPRINT, SERVER_HOSTNAME, CONTEXTS, CA_SOURCE, ISSUER, SAN, HOSTFORM, PATHS):
-        c = {"kind": "tls", "cert_reqs": cr, "ah": ah, "fp": fp, "sh": sh, "ctx": ctx, "ca": ca, "issuer": issuer, "san": san, "hostform": hf, "path": path, "backend": backend}
-        if coherent(c):
-            yield c
+        for pc in (PCERT if path == "tunnel-tls" else ["ok"]):
+            c = {"kind": "tls", "cert_reqs": cr, "ah": ah, "fp": fp, "sh": sh, "ctx": ctx, "ca": ca, "issuer": issuer, "san": san, "hostform": hf, "path": path, "backend": backend, "pcert": pc}
+            if coherent(c):
+                yield c
 
 
 def pairwise_core(backend):
     """A much smaller but systematic sub-lattice: every value of every axis against every value of the security axes."""
     base = {"kind": "tls", "cert_reqs": "unset", "ah": "unset", "fp": "unset", "sh": "unset", "ctx": "none", "ca": "ca_certs", "issuer": "trusted", "san": "exact", "hostform": "lower", "path": "direct", "backend": backend}
     axes = {"cert_reqs": CERT_REQS, "ah": ASSERT_HOSTNAME, "fp": FINGERPRINT, "sh": SERVER_HOSTNAME, "ctx": CONTEXTS, "ca": CA_SOURCE, "issuer": ISSUER, "san": SAN, "hostform": HOSTFORM, "path": PATHS}
+    if backend == "ssl":
+        for pc in PCERT[1:]:
+            for cr, ctx, issuer, san in itertools.product(CERT_REQS, CONTEXTS, ISSUER, ("exact", "mismatch")):
+                yield dict(base, path="tunnel-tls", pcert=pc, cert_reqs=cr, ctx=ctx, issuer=issuer, san=san)
     names = list(axes)
     seen = set()
     for a, b, c3 in itertools.combinations(names, 3):
@@ -477,7 +574,7 @@ def run_shard(spec):
 
             strat = st.fixed_dictionaries({"kind": st.just("tls"), "cert_reqs": st.sampled_from(CERT_REQS), "ah": st.sampled_from(ASSERT_HOSTNAME), "fp": st.sampled_from(FINGERPRINT + ["unset", "unset"]),
                                            "sh": st.sampled_from(SERVER_HOSTNAME), "ctx": st.sampled_from(CONTEXTS), "ca": st.sampled_from(CA_SOURCE), "issuer": st.sampled_from(ISSUER + ["trusted"]),
-                                           "san": st.sampled_from(SAN), "hostform": st.sampled_from(HOSTFORM), "path": st.sampled_from(PATHS), "backend": st.just(backend)})
+                                           "san": st.sampled_from(SAN), "hostform": st.sampled_from(HOSTFORM), "path": st.sampled_from(PATHS), "backend": st.just(backend), "pcert": st.sampled_from(["ok", "ok", "ok", "untrusted", "wrongname"])}).map(lambda c: dict(c, pcert="ok") if c["path"] != "tunnel-tls" else c)
 
             def body(case):
                 if coherent(case):
